@@ -3,6 +3,9 @@ package sim
 import (
 	"bytes"
 	"fmt"
+	"os"
+
+	oraclekeeper "github.com/ExocoreNetwork/exocore/x/oracle/keeper"
 
 	dbm "github.com/cometbft/cometbft-db"
 	abci "github.com/cometbft/cometbft/abci/types"
@@ -51,6 +54,9 @@ func (r *Run) RunReplica(o ReplicaOpts) (*Divergence, *PanicError) {
 		if _, p := n.BeginBlock(c.BeginBlockRequest(b.Header, b.Votes, b.Evidence)); p != nil {
 			return nil, p
 		}
+		if os.Getenv("EXOSIM_ORACLE_DUMP") != "" {
+			fmt.Printf("---- replica %s after BeginBlock %d\n%s", o.Name, b.Height, oraclekeeper.VerifDumpDeliver())
+		}
 		for i, tx := range b.Txs {
 			resp, p := n.DeliverTx(tx)
 			if p != nil {
@@ -58,7 +64,16 @@ func (r *Run) RunReplica(o ReplicaOpts) (*Divergence, *PanicError) {
 			}
 			want := b.TxResults[i]
 			if resp.Code != want.Code || !bytes.Equal(resp.Data, want.Data) || resp.GasUsed != want.GasUsed || resp.GasWanted != want.GasWanted {
-				return &Divergence{b.Height, "tx-result", fmt.Sprintf("tx %d of height %d: code %d/%d gasUsed %d/%d gasWanted %d/%d data equal=%v log %q vs %q", i, b.Height, resp.Code, want.Code, resp.GasUsed, want.GasUsed, resp.GasWanted, want.GasWanted, bytes.Equal(resp.Data, want.Data), firstN(resp.Log, 160), firstN(want.Log, 160))}, nil
+				what := "tx-result"
+				if resp.Code == want.Code && bytes.Equal(resp.Data, want.Data) && resp.GasWanted == want.GasWanted {
+					what = "tx-gas-used-only"
+					if resp.Code != 0 && resp.GasWanted == 0 {
+						// the transaction was rejected before the ante handler installed its own gas
+						// meter: the reported GasUsed is whatever the block context's meter holds
+						what = "gas-used-of-tx-rejected-before-ante"
+					}
+				}
+				return &Divergence{b.Height, what, fmt.Sprintf("tx %d of height %d: code %d/%d gasUsed %d/%d gasWanted %d/%d data equal=%v log %q vs %q", i, b.Height, resp.Code, want.Code, resp.GasUsed, want.GasUsed, resp.GasWanted, want.GasWanted, bytes.Equal(resp.Data, want.Data), firstN(resp.Log, 160), firstN(want.Log, 160))}, nil
 			}
 		}
 		eb, p := n.EndBlock(b.Height)
